@@ -51,7 +51,16 @@ class Crash(BaseException):
 
 class Hooks:
     def __init__(self) -> None:
+        self._tl = threading.local()
         self.reset()
+
+    @property
+    def ctx(self) -> str:  # per worker thread: which message type this thread is handling
+        return getattr(self._tl, "ctx", "")
+
+    @ctx.setter
+    def ctx(self, v: str) -> None:
+        self._tl.ctx = v
 
     def reset(self) -> None:
         self.dead = False
@@ -716,6 +725,31 @@ def wl_chain(n: int = 2) -> Workflow:
     return workflow([stage("s%d" % i, ["s%d" % (i - 1)] if i else []) for i in range(n)])
 
 
+def _register_built_type() -> None:
+    """Stage type whose single task is created at plan time by a StageDefinitionBuilder."""
+    from stabilize.stages.builder import StageDefinitionBuilder, get_default_factory
+
+    class VfBuilt(StageDefinitionBuilder):
+        @property
+        def type(self) -> str:
+            return "vtask_built"
+
+        def build_tasks(self, stage):  # type: ignore[no-untyped-def]
+            return [TaskExecution.create(name="t1", implementing_class="vtask", stage_start=True, stage_end=True)]
+
+    get_default_factory().register(VfBuilt())
+
+
+def wl_diamond_built() -> Workflow:
+    """diamond whose join d has no pre-defined tasks: they are built when the stage is planned."""
+    _register_built_type()
+    wf = wl_diamond()
+    d = next(s for s in wf.stages if s.ref_id == "d")
+    d.tasks = []
+    d.type = "vtask_built"
+    return wf
+
+
 def wl_diamond(fail: str | None = None, cont: bool = False, join_tasks: int = 1, stop: bool = False) -> Workflow:
     bt = {"t1": {"kind": "terminal"}} if fail == "b" else None
     bctx = {"continuePipelineOnFailure": True} if cont else ({"failPipeline": False} if stop else None)
@@ -945,6 +979,7 @@ WORKLOADS: dict[str, Callable[[], Workflow]] = {
     "fwdjump_t2": lambda: wl_forward_jump(extra_task=True),
     "poll2_t2": lambda: wl_poll(2, then_ok=True),
     "diamond_j2": lambda: wl_diamond(join_tasks=2),
+    "diamond_built": wl_diamond_built,
     "after2": lambda: wl_synthetic("after2"),
     "after2_fail": lambda: wl_synthetic("after2_fail"),
     "after2_failcont": lambda: wl_synthetic("after2_failcont"),
